@@ -199,7 +199,29 @@ fn fold(c: &CmdSpec, seq: &[Occ]) -> Result<BTreeMap<usize, St>, usize> {
 pub fn case(seed: u64, st: &mut Stats) {
     let mut rng = Rng::new(seed);
     let spec = gen_spec(&mut rng);
-    let cmd = match gate(&spec) {
+    // the arguments live 0, 1 or 2 subcommand levels down; args_override_self (a setting every
+    // level inherits) is then declared at the very top
+    let depth = rng.below(3);
+    let built_spec = if depth == 0 {
+        spec.clone()
+    } else {
+        let mut leaf = spec.clone();
+        leaf.name = "leaf".into();
+        let aos = leaf.has(Setting::ArgsOverrideSelf);
+        leaf.settings.retain(|s| *s != Setting::ArgsOverrideSelf);
+        let mut cur = leaf;
+        for d in (0..depth).rev() {
+            let mut parent = CmdSpec { name: if d == 0 { "prog".into() } else { "mid".into() }, ..Default::default() };
+            parent.subs.push(cur);
+            cur = parent;
+        }
+        if aos {
+            cur.set(Setting::ArgsOverrideSelf);
+        }
+        cur
+    };
+    st.count(&format!("depth.{}", depth));
+    let cmd = match gate(&built_spec) {
         Ok(c) => c,
         Err(_) => {
             st.count("gate.rejected");
@@ -208,7 +230,11 @@ pub fn case(seed: u64, st: &mut Stats) {
     };
     for _ in 0..3 {
         let seq = gen_seq(&mut rng, &spec, st.tier_thorough);
-        let argv = render(&mut rng, &spec, &seq);
+        let mut argv = render(&mut rng, &spec, &seq);
+        if depth > 0 {
+            let path: Vec<OsString> = (1..=depth).map(|d| if d == depth { "leaf".into() } else { "mid".into() }).collect();
+            argv.splice(1..1, path);
+        }
         st.eval();
         st.nontrivial(mix(hash_str(&format!("{:?}", spec)), hash_str(&show_argv(&argv))));
         let short_argv = || {
@@ -243,6 +269,16 @@ pub fn case(seed: u64, st: &mut Stats) {
             (Err(e), Ok(_)) => st.violation(format!("c07:valid-sequence-rejected:{:?}", e.kind()), format!("{} | {}", e.render().to_string().lines().next().unwrap_or(""), ctx())),
             (Ok(m), Ok(state)) => {
                 st.count("fold.ok");
+                let mut m = &m;
+                for _ in 0..depth {
+                    match m.subcommand() {
+                        Some((_, sm)) => m = sm,
+                        None => {
+                            st.violation("c07:subcommand-chain-lost", ctx());
+                            break;
+                        }
+                    }
+                }
                 for (ai, a) in spec.args.iter().enumerate() {
                     let id = a.id.as_str();
                     let src = m.value_source(id);
